@@ -89,15 +89,15 @@ theorem upd_other {β : Type} (f : Path → β) (p q : Path) (v : β) (h : q ≠
 /-- `st'` differs from `st` at most in the components of path `p` (and clock / attic list) -/
 def AgreeOff (p : Path) (st st' : St) : Prop :=
   ∀ q, q ≠ p → st'.results q = st.results q ∧ st'.inputs q = st.inputs q ∧ st'.dirStates q = st.dirStates q
-    ∧ st'.disk q = st.disk q
+    ∧ st'.disk q = st.disk q ∧ st'.variantIds q = st.variantIds q
 
-theorem AgreeOff.refl (p : Path) (st : St) : AgreeOff p st st := fun _ _ => ⟨rfl, rfl, rfl, rfl⟩
+theorem AgreeOff.refl (p : Path) (st : St) : AgreeOff p st st := fun _ _ => ⟨rfl, rfl, rfl, rfl, rfl⟩
 
 theorem AgreeOff.trans {p : Path} {a b c : St} (h1 : AgreeOff p a b) (h2 : AgreeOff p b c) : AgreeOff p a c := by
   intro q hq
-  obtain ⟨a1, a2, a3, a4⟩ := h1 q hq
-  obtain ⟨b1, b2, b3, b4⟩ := h2 q hq
-  exact ⟨b1.trans a1, b2.trans a2, b3.trans a3, b4.trans a4⟩
+  obtain ⟨a1, a2, a3, a4, a5⟩ := h1 q hq
+  obtain ⟨b1, b2, b3, b4, b5⟩ := h2 q hq
+  exact ⟨b1.trans a1, b2.trans a2, b3.trans a3, b4.trans a4, b5.trans a5⟩
 
 theorem agree_setResult (st : St) (p : Path) (r : RH) : AgreeOff p st (st.setResult p r) := by
   intro q hq; simp [St.setResult, upd, hq]
@@ -184,7 +184,7 @@ theorem truthful_of_agree {E : Env} {dev : Bool} {Γ : Path → List (Dir × Dig
   intro q
   by_cases hq : q = p
   · subst hq; exact hp
-  · obtain ⟨a1, a2, a3, a4⟩ := ha q hq
+  · obtain ⟨a1, a2, a3, a4, _⟩ := ha q hq
     exact loc_congr a1 a2 a3 a4 (h q)
 
 theorem truthful_init (E : Env) (dev : Bool) (Γ : Path → List (Dir × Digest)) : Truthful E dev Γ St.init := by
